@@ -87,6 +87,13 @@ def run(seed):
             continue
         ms, out = bad
         cls, detail = classify(out)
+        if cls is None and "unsupported operation" in out:
+            # the tree does something Miri cannot interpret (foreign functions, inline assembly): no verdict from this stage
+            why = re.search(r"unsupported operation: ([^\n]*)", out)
+            msg = "skipped: Miri cannot interpret this tree (" + (why.group(1)[:160] if why else "unsupported operation") + ")"
+            print("miri stage " + msg)
+            patch_evidence({"miri: stage": msg})
+            return 0
         if cls is None:
             print("HARNESS ERROR: miri run failed without a verdict:\n" + out[-3000:], file=sys.stderr)
             return 2
